@@ -114,6 +114,8 @@ def _balanced(s):
 
 
 def argname(a):
+    if a[0] == "g":
+        return "_u%s" % a[1][1:]
     return "p%s" % a[1][1:] if a[0] == "p" else "s%d" % a[1]
 
 
@@ -145,8 +147,15 @@ def switch_conds(f, t, P, count_cond):
         if m:
             a = resolve_arg(f, m.group(1), P)
             if a is None:
-                return None
-            var = "k_" + argname(a)
+                # the uniqueness test of a reference-counted value: whether the value is shared is the
+                # script's choice (it can keep a second reference), so the outcome is a free variable
+                loc = re.sub(r"^(move|copy)\s+", "", m.group(1).strip())
+                dd = _def1(f, loc) if re.fullmatch(r"_\d+", loc) else None
+                if dd and re.match(r"^(?:gc::)?Gc::<.*>::(get_mut|try_unwrap)\(", dd.strip()):
+                    a = ("g", loc)
+                else:
+                    return None
+            var = ("g" if a[0] == "g" else "k_") + argname(a)
             res = [(tgt, "(= %s (_ bv%d 8))" % (var, v)) for v, tgt in t["targets"]]
             if t["otherwise"] is not None:
                 res.append((t["otherwise"], "(and true %s)" % " ".join("(distinct %s (_ bv%d 8))" % (var, v) for v in vals)))
@@ -273,6 +282,10 @@ def check_fn(key, f, nvariants, count_cond, timeout=60, kinds=None):
     decl = ["(set-logic QF_BV)", "(declare-const len (_ BitVec 64))"]
     for a in sorted(used, key=str):
         n = argname(a)
+        if a[0] == "g":
+            decl.append("(declare-const g%s (_ BitVec 8))" % n)
+            decl.append("(assert (bvult g%s (_ bv2 8)))" % n)   # Option / Result discriminant: 0 = None / Ok, 1 = Some / Err
+            continue
         decl.append("(declare-const k_%s (_ BitVec 8))" % n)
         decl.append("(declare-const v_%s (_ BitVec 64))" % n)
         decl.append("(assert (bvult k_%s (_ bv%d 8)))" % (n, nvariants))
@@ -287,7 +300,8 @@ def check_fn(key, f, nvariants, count_cond, timeout=60, kinds=None):
     res = out[0] if out and out[0] in ("sat", "unsat") and "(error" not in p.stdout else "error"
     model = {}
     if res == "sat":
-        names = ["len"] + ["k_" + argname(a) for a in sorted(used, key=str)] + ["v_" + argname(a) for a in sorted(used, key=str)]
+        real = [a for a in sorted(used, key=str) if a[0] != "g"]
+        names = ["len"] + ["k_" + argname(a) for a in real] + ["v_" + argname(a) for a in real] + ["g" + argname(a) for a in sorted(used, key=str) if a[0] == "g"]
         small = "(assert (bvule len (_ bv6 64)))\n"
         for extra in (small, ""):
             p2 = subprocess.run(["z3", "-in", "-T:%d" % timeout], input=base + extra + "(check-sat)\n(get-value (%s))\n" % " ".join(names), capture_output=True, text=True)
@@ -296,4 +310,5 @@ def check_fn(key, f, nvariants, count_cond, timeout=60, kinds=None):
                     model[nm] = int(hx, 16)
                 break
     return {"name": key, "res": res, "sites": len(sites), "paths": len(alts), "dropped": dropped, "model": model,
-            "args": sorted(argname(a) for a in used), "dt": time.time() - t0, "params": refs, "slice": P}
+            "args": sorted(argname(a) for a in used), "dt": time.time() - t0, "params": refs, "slice": P,
+            "uniqueness_tests": sorted(a[1] for a in used if a[0] == "g")}
